@@ -61,6 +61,7 @@ package cniutil
 //@   modifies skel.CmdArgs.Args, CniN, CniCmd, CniIf, SavedIDs, SavedLen, SavedIf, fresh mapsof(map[string]interface{}), fresh mapsof(map[string]string), fresh elemsof(interface{}), fresh elemsof(string), fresh elemsof(*NetworkInfo), fresh NetworkInfo.*, fresh invoke.Args.*, fresh invoke.DefaultExec.*, fresh invoke.RawExec.*
 //@   ensures [C12:add-success-invokes-all-in-order] result1 == nil ==> CniN == old(CniN) + len(networkInfos) && forall k int {CniCmd[k]} {CniIf[k]} :: old(CniN) <= k && k < CniN ==> CniCmd[k] == "ADD" && CniIf[k] == networkInfos[k - old(CniN)].IfName
 //@   ensures [C12:add-never-invokes-add-after-del] forall k int, l int {CniCmd[k], CniCmd[l]} :: old(CniN) <= k && k < l && l < CniN && CniCmd[l] == "ADD" ==> CniCmd[k] == "ADD"
+//@   ensures [C12:rollback-deletes-no-more-than-was-added] forall a int {CniCmd[a]} :: old(CniN) <= a && a < CniN && CniCmd[a] == "DEL" ==> CniN <= a + (a - old(CniN)) + 1
 //@   loop 0 invariant cmdArgs != nil && 0 <= idx && idx <= len(networkInfos) && CniN == old(CniN) + idx
 //@   loop 0 invariant forall k int {CniCmd[k]} {CniIf[k]} :: old(CniN) <= k && k < old(CniN) + idx ==> CniCmd[k] == "ADD" && CniIf[k] == networkInfos[k - old(CniN)].IfName
 //@   loop 0 invariant cmdArgs.ContainerID in SavedIDs && SavedLen[cmdArgs.ContainerID] == len(networkInfos)
